@@ -141,15 +141,17 @@ func vhCanon(rs []vhRange) []vhRange {
 // invariant holds.
 func VH_C12_AddSymbolic() {
 	k := 2
+	lim := int64(1) << 34 // offsets/sizes up to 16 GiB: crosses the uint32 split (4 pieces)
 	if vhTier() > 0 {
-		k = 3
+		// three patches do not finish in 10 minutes; the thorough tier doubles
+		// the size range instead (up to 8 pieces per range)
+		lim = int64(1) << 35
 	}
 	vhUnwind(40)
 	p := New()
 	var rs []vhRange
 	pos := int64(0)
 	np := vhInt("npatches", 1, k)
-	const lim = int64(1) << 34 // offsets/sizes up to 16 GiB: crosses the uint32 split
 	for i := 0; i < np; i++ {
 		off := int64(vhU64("off"))
 		old := int64(vhU64("old"))
